@@ -50,9 +50,16 @@ type BrokerScript struct {
 type Case struct {
 	Brokers []BrokerScript `json:"brokers"`
 	Stagger int            `json:"stagger_ms"` // 0 default, -1 sequential, n
-	Proxy   string         `json:"proxy"`      // "", "right", "wrong", "missing", "refuse"
+	Proxy   string         `json:"proxy"`      // "", "right", "wrong", "missing", "refuse", "empty", "retaddr"
 	Second  bool           `json:"second"`     // perform a second dial reusing ids of the first for rogues
+	// Nested: the contacts are multi-hop ("broker#3#7"): the requester sends one streaming request to the
+	// entry broker and the hello comes back on that socket, as in proxied mode (Proxy selects the hello; "" = right)
+	Nested bool `json:"nested,omitempty"`
 }
+
+const proxyReturnAddr = "<10.1.1.1:9618?ccbid=10.1.1.2:9618%231>"
+
+var proxyKinds = []string{"right", "wrong", "missing", "refuse", "empty", "retaddr"}
 
 type broker struct {
 	ln      net.Listener
@@ -156,9 +163,19 @@ func (b *broker) serve(wg *sync.WaitGroup) {
 		hid := id
 		switch b.proxy {
 		case "wrong":
-			hid = "0000" + id[4:]
+			hid = "0000" + id
+			if len(id) > 4 {
+				hid = "0000" + id[4:]
+			}
+			if hid == id {
+				hid = "1111" + id[4:]
+			}
 		case "missing":
 			hid = "<absent>"
+		case "empty":
+			hid = ""
+		case "retaddr": // something the broker knows without having seen the id
+			hid = proxyReturnAddr
 		}
 		hm := message.NewMessageForStream(st)
 		_ = hm.PutInt(ctx, ccb.CommandReverseConnect)
@@ -304,15 +321,25 @@ func runDial(c Case, earlier []string) (dialOutcome, []*broker) {
 			panic(err)
 		}
 		b := &broker{ln: ln, script: bs, got: make(chan struct{}), earlier: earlier, proxy: c.Proxy}
+		if c.Nested && b.proxy == "" {
+			b.proxy = "right"
+		}
 		addr := ln.Addr().String()
 		if bs.Down {
+			// a broker that is down: an address nobody listens on. (Not the port just closed: a check
+			// running beside this one could bind it.) Distinct down brokers get distinct loopback hosts.
 			_ = ln.Close()
+			addr = fmt.Sprintf("127.0.0.%d:1", 2+len(brokers))
 		} else {
 			wg.Add(1)
 			go b.serve(&wg)
 		}
 		brokers = append(brokers, b)
-		contacts = append(contacts, addresses.CCBContact{BrokerAddr: addr, CCBID: "7", Raw: addr + "#7"})
+		if c.Nested {
+			contacts = append(contacts, addresses.CCBContact{BrokerAddr: addr + "#3", CCBID: "7", Raw: addr + "#3#7"})
+		} else {
+			contacts = append(contacts, addresses.CCBContact{BrokerAddr: addr, CCBID: "7", Raw: addr + "#7"})
+		}
 	}
 	for _, b := range brokers {
 		self := b
@@ -337,8 +364,8 @@ func runDial(c Case, earlier []string) (dialOutcome, []*broker) {
 	case c.Stagger > 0:
 		opts.Stagger = time.Duration(c.Stagger) * time.Millisecond
 	}
-	if c.Proxy != "" {
-		opts.ProxyReturnAddr = "<10.1.1.1:9618?ccbid=10.1.1.2:9618%231>"
+	if c.Proxy != "" && !(c.Nested && c.Stagger == 1) { // nested dials run with and without a return address
+		opts.ProxyReturnAddr = proxyReturnAddr
 	}
 	var o dialOutcome
 	t0 := time.Now()
@@ -432,8 +459,22 @@ func judge(c Case, o dialOutcome, brokers []*broker) (string, bool) {
 			allDown = false
 		}
 	}
-	if c.Proxy == "right" && !allDown {
+	if (c.Proxy == "right" || c.Nested && c.Proxy == "") && !allDown {
 		anyLegit = true
+	}
+	// the identifier itself: 20 random bytes in hex in this implementation; anything short, empty or equal
+	// to something a third party knows is not "fresh and unguessable"
+	for i, b := range brokers {
+		select {
+		case <-b.got:
+			b.mu.Lock()
+			id := b.connID
+			b.mu.Unlock()
+			if len(id) < 16 || id == proxyReturnAddr || strings.Contains(id, "10.1.1.1") {
+				return fmt.Sprintf("the request sent to broker %d carries connect id %q: not a fresh unguessable identifier", i, id), rogueFirst
+			}
+		default:
+		}
 	}
 	if !anyLegit && o.conn != nil {
 		return "Dial returned a connection although no legitimate reverse connection was made", rogueFirst
@@ -462,8 +503,8 @@ func judge(c Case, o dialOutcome, brokers []*broker) (string, bool) {
 	if c.Proxy == "refuse" && len(c.Brokers) == 1 && !allDown && (o.err == nil || !strings.Contains(o.err.Error(), failureMsg)) {
 		return fmt.Sprintf("proxied mode: the broker refused with a message but Dial returned err=%v", o.err), rogueFirst
 	}
-	if (c.Proxy == "wrong" || c.Proxy == "missing") && o.err == nil {
-		return "proxied mode: a hello with a wrong/missing id was accepted", rogueFirst
+	if (c.Proxy == "wrong" || c.Proxy == "missing" || c.Proxy == "empty" || c.Proxy == "retaddr") && o.err == nil {
+		return "proxied mode: a hello with a wrong/missing/empty/guessable id was accepted", rogueFirst
 	}
 	// non-vacuity: a lone legit arrival with no silent rogue in front must be returned
 	if anyLegit && o.conn == nil && !silent && len(c.Brokers) == 1 && c.Brokers[0].Reply != "failure" && c.Brokers[0].Reply != "garbage" {
@@ -568,8 +609,9 @@ func TestC20Scripts(t *testing.T) {
 		c.Stagger = rapid.SampledFrom([]int{0, 1, 30, -1}).Draw(t, "stagger")
 		c.Second = rapid.IntRange(0, 3).Draw(t, "second") == 0
 		if rapid.IntRange(0, 6).Draw(t, "proxy") == 0 {
-			c.Proxy = rapid.SampledFrom([]string{"right", "wrong", "missing", "refuse"}).Draw(t, "proxykind")
+			c.Proxy = rapid.SampledFrom(proxyKinds).Draw(t, "proxykind")
 		}
+		c.Nested = rapid.IntRange(0, 5).Draw(t, "nested") == 0
 		v, nt := runCase(c)
 		k := ""
 		if nt {
@@ -579,6 +621,9 @@ func TestC20Scripts(t *testing.T) {
 		class := fmt.Sprintf("brokers:%d", nb)
 		if c.Proxy != "" {
 			class = "proxied:" + c.Proxy
+		}
+		if c.Nested {
+			class = "nested/" + class
 		}
 		ev.Case(class, k)
 		ev.Sample("script", c)
@@ -624,10 +669,16 @@ func TestC20Permutations(t *testing.T) {
 			classes = append(classes, "perm:no-legit")
 		}
 	}
-	for _, p := range []string{"right", "wrong", "missing", "refuse"} {
+	for _, p := range proxyKinds {
 		cases = append(cases, Case{Brokers: []BrokerScript{{}}, Proxy: p})
 		classes = append(classes, "proxied:"+p)
+		for _, stg := range []int{0, 1} { // nested contacts, with and without a return address
+			cases = append(cases, Case{Brokers: []BrokerScript{{}}, Proxy: p, Nested: true, Stagger: stg})
+			classes = append(classes, "proxied:nested:"+p)
+		}
 	}
+	cases = append(cases, Case{Brokers: []BrokerScript{{}}, Nested: true}, Case{Brokers: []BrokerScript{{Down: true}, {}}, Nested: true, Stagger: -1})
+	classes = append(classes, "proxied:nested", "proxied:nested")
 	// two brokers: the rogue at A presents B's id; staggers
 	for _, stg := range []int{0, 1, -1} {
 		cases = append(cases, Case{Stagger: stg, Brokers: []BrokerScript{
